@@ -150,6 +150,8 @@ import BGV
 #print axioms BGV.C10_getSubgraph
 #print axioms BGV.C10_bad_vertex
 #print axioms BGV.C10_getSubgraphWithRemap
+#print axioms BGV.C10_und_getSubgraph
+#print axioms BGV.C10_und_getSubgraphWithRemap
 
 -- C11
 #print axioms BGV.C11_findVertexPredecessors
